@@ -46,6 +46,7 @@ def corr_bilform(res, tier, salt, curves=('unitsquare', 'lshape', 'interval', 'r
                         lines.append('sl bil %d %s %s' % (pw, trial.encode(), test.encode()))
                         expect.append(r)
                         meta.append((curve, pw, classify_space(fx, xa, xb), classify_time(ta, tb), r != '0'))
+                with_generated(lines, expect, meta)   # the same requests to the definitions regenerated from the source
                 out = run_driver(lines)
                 for line, want, got, m in zip(lines, expect, out, meta):
                     if m is None:
@@ -61,6 +62,175 @@ def corr_bilform(res, tier, salt, curves=('unitsquare', 'lshape', 'interval', 'r
                         return
     res.sample(dict(curve='unitsquare', request='sl bil <pw_exact> <trial t0:t1:x0:x1:piece> <test ...>',
                     standins='random rational (p0+p1 u+p2 u^2)/(q0+u^2) for exp, Ei, erf, ...'))
+    corr_panels(res, tier, salt + 'p', curves=curves)
+
+
+def with_generated(lines, expect, *parallel):
+    """For every request to the hand-written model that has a twin among the definitions REGENERATED from
+    src/single_layer.py (Stbem.Gen.Panels: `sl genbil`, `sl geneval`, `sl genpanels`), appends the twin request with
+    the same expected answer (the answer of the real Python code).  Lists in `parallel` get a copy of the entry."""
+    twin = {'bil': 'genbil', 'eval': 'geneval', 'panels': 'genpanels'}
+    n = len(lines)
+    for i in range(n):
+        p = lines[i].split(' ', 2)
+        if len(p) == 3 and p[0] == 'sl' and p[1] in twin:
+            lines.append('sl %s %s' % (twin[p[1]], p[2]))
+            expect.append(expect[i])
+            for m in parallel:
+                m.append(m[i])
+
+
+class _RecScheme:
+    """Stand-in for a 2-D quadrature scheme of the operator that records (which scheme, which mirror, which rectangle)
+    instead of integrating; `+` of the results is list concatenation, i.e. the order of evaluation is kept."""
+    KIND = {'duff_log_log': 'id', 'duff_log_log.mirror_x': 'dmx', 'duff_log_log.mirror_y': 'dmy',
+            'log_log.mirror_x': 'lmx', 'log_log.mirror_y': 'lmy'}
+
+    def __init__(self, tag):
+        self.tag = tag
+
+    def mirror_x(self):
+        return _RecScheme(self.tag + '.mirror_x')
+
+    def mirror_y(self):
+        return _RecScheme(self.tag + '.mirror_y')
+
+    def integrate(self, f, a, b, c, d):
+        return [':'.join([self.KIND.get(self.tag, self.tag)] + [q2s(v) for v in (a, b, c, d)])]
+
+
+def panel_rectangles(rng, fx, n):
+    """Rectangles [a,b]x[c,d] for the panel recursion: every relative position of two dyadic intervals (both orders,
+    so that the ordering assertion is exercised too), parent/child/quarter pairs, the seam, sizes that differ by less
+    / more than 1e-10, end points closer than the isclose tolerance, intervals shorter than 1e-8."""
+    ivs = random_space_intervals(rng, fx, 14)
+    L = fx.length
+    out = []
+    for _ in range(n):
+        xa, xb = rng.choice(ivs), rng.choice(ivs)
+        r = rng.random()
+        if r < 0.25:
+            m, q = (xa[0] + xa[1]) / 2, (xa[1] - xa[0]) / 4
+            xb = rng.choice([(xa[0], m), (m, xa[1]), xa, (xa[0] + q, m), (m, m + q), (xa[0] + q, m + q), (xa[0] + q, xa[1])])
+        elif r < 0.40:   # touching in the middle / at the seam with sizes 1 : 2^k, k = -3..3
+            h = (xa[1] - xa[0]) * F(2)**rng.randint(-3, 3)
+            if rng.random() < 0.5 or not fx.closed:
+                xb = (xa[1], xa[1] + h)
+            else:
+                k = rng.randint(0, 3)
+                xa, xb = (F(0), L / 2**(k + 2)), (L - L / 2**(rng.randint(0, 3) + 2), L)
+        elif r < 0.55:   # thresholds: tiny perturbations of a touching / seam / nested configuration
+            eps = rng.choice([F(1, 10**11), F(1, 10**12), F(3, 10**10), F(1, 10**6), F(1, 10**9) / 3])
+            h = xa[1] - xa[0]
+            xb = rng.choice([(xa[1], xa[1] + h + eps), (xa[1], xa[1] + h - eps), (xa[1] + eps, xa[1] + h),
+                             (xa[0] + eps, xa[1] + h), (xa[0], xa[0] + eps / 1000), (xa[1], xa[1] + F(1, 10**8) * rng.choice([F(1, 2), F(2)])),
+                             (L - h - eps, L), (L - h + eps, L)])
+            if rng.random() < 0.3 and fx.closed:
+                xa = (F(0), h)
+        elif r < 0.60 and fx.closed:   # meeting at the seam AND overlapping (`assert b < c` of the seam branch)
+            k = rng.randint(1, 3)
+            xa, xb = (F(0), L * F(rng.randint(2**k // 2, 2**k), 2**k)), (L * F(rng.randint(0, 2**k // 2), 2**k), L)
+        if rng.random() < 0.85 and (xb[0], xb[1]) < (xa[0], xa[1]):
+            xa, xb = xb, xa
+        out.append((xa[0], xa[1], xb[0], xb[1]))
+    return out
+
+
+def corr_panels(res, tier, salt, curves=('unitsquare', 'lshape', 'interval', 'rect32'), per_fixture=None):
+    """The decision structure of the REAL `SingleLayerOperator.__integrate` (called directly, with the 2-D schemes of
+    the operator replaced by recorders) against the hand-written model (`sl panels`) AND the definition regenerated
+    from the source (`sl genpanels`): same rules on the same rectangles in the same order, same failures."""
+    rng = seed_rng(res.seed, salt)
+    per_fixture = per_fixture or (150 if tier == 'quick' else 1200)
+    for curve in curves:
+        fx = Fixture(rng, curve, False)
+        for name in ('duff_log_log', 'log_log', 'gauss_2d'):
+            if hasattr(fx.SL, name):
+                setattr(fx.SL, name, _RecScheme(name))
+        integrate = getattr(fx.SL, '_SingleLayerOperator__integrate')
+        lines = fx.context_lines()
+        expect = ['ok'] * len(lines)
+        for (a, b, c, d) in panel_rectangles(rng, fx, per_fixture):
+            try:
+                r = ' '.join(integrate(None, Q(a), Q(b), Q(c), Q(d)))
+            except (AssertionError, RecursionError):
+                r = 'err'
+            lines.append('sl panels %s %s %s %s' % (q2s(a), q2s(b), q2s(c), q2s(d)))
+            expect.append(r)
+        n0 = len(lines)
+        with_generated(lines, expect)
+        out = run_driver(lines)
+        for i, (line, want, got) in enumerate(zip(lines, expect, out)):
+            if want == 'ok':
+                continue
+            got = 'err' if got.startswith('err') else got
+            res.count(('panels', curve, line), want != 'err')
+            if i < n0:
+                res.bump('panels_' + ('err' if want == 'err' else '+'.join(sorted({p.split(':')[0] for p in want.split()}))))
+            if want != got:
+                which = 'the definition regenerated from the source (Gen/Panels.lean)' if i >= n0 else 'the hand-written model'
+                res.broken_obligation('correspondence %s: panel decomposition of __integrate differs from %s' % (res.pid, which),
+                                      'curve %s closed %s length %s\nline: %s\npython: %s\nlean:   %s' %
+                                      (curve, fx.closed, fx.length, line, want[:400], got[:400]))
+                return
+    res.sample(dict(request='sl panels / sl genpanels a b c d', answer='kind:a:b:c:d ... in evaluation order | err',
+                    python='real __integrate with recording stand-ins for duff_log_log / log_log'))
+
+
+def corr_mpcol(res, tier, salt):
+    """`MP_SL_matrix_col` (the worker of the pool path, run in-process on the module globals it reads) against the
+    generated `mpCol` and against the hand model's single calls: the skip rule changes no entry."""
+    import src.single_layer as SLmod
+    rng = seed_rng(res.seed, salt)
+
+    class NPShim:   # `np.zeros` must hold exact numbers; everything else is NumPy
+        def __getattr__(self, k):
+            return getattr(np, k)
+
+        def zeros(self, shape, *a, **k):
+            out = np.empty(shape, dtype=object)
+            out.fill(Q(0))
+            return out
+
+    for curve, pw in (('unitsquare', False), ('interval', True), ('lshape', False)):
+        fx = Fixture(rng, curve, pw)
+        ivs = random_space_intervals(rng, fx, 8)
+        n_t, n_r = (5, 3) if tier == 'quick' else (9, 8)
+        tests = [fx.elem(*rng.choice(TIME_LATTICE), *rng.choice(ivs)) for _ in range(n_t)]
+        trials = [fx.elem(*rng.choice(TIME_LATTICE), *rng.choice(ivs)) for _ in range(n_r)]
+        lines = fx.context_lines()
+        expect = ['ok'] * len(lines)
+        saved = {k: SLmod.__dict__.get(k) for k in ('__SL', '__elems_test', '__elems_trial', 'np')}
+        SLmod.__dict__.update({'__SL': fx.SL, '__elems_test': tests, '__elems_trial': trials, 'np': NPShim()})
+        try:
+            with installed(fx.standins):
+                for j, tr in enumerate(trials):
+                    try:
+                        col = [result_str(v) for v in SLmod.MP_SL_matrix_col(j)]
+                    except AssertionError:
+                        col = None
+                    lines.append('sl genmpcol %d %s %s' % (pw, tr.encode(), ' '.join(te.encode() for te in tests)))
+                    expect.append('err' if col is None else ','.join(col))
+                    if col is not None:
+                        for te, v in zip(tests, col):
+                            lines.append('sl bil %d %s %s' % (pw, tr.encode(), te.encode()))
+                            expect.append(v)
+        finally:
+            for k, v in saved.items():
+                if v is None:
+                    SLmod.__dict__.pop(k, None)
+                else:
+                    SLmod.__dict__[k] = v
+        out = run_driver(lines)
+        for line, want, got in zip(lines, expect, out):
+            if want == 'ok':
+                continue
+            got = 'err' if got.startswith('err') else got
+            res.count(('mpcol', line), want not in ('0', 'err'))
+            if want != got:
+                res.broken_obligation('correspondence %s: MP_SL_matrix_col differs from the generated mpCol / the single calls of the model' % res.pid,
+                                      'line: %s\npython: %s\nlean:   %s' % (line[:300], want[:300], got[:300]))
+                return
 
 
 # ---------------------------------------------------------------------------------------------------------
@@ -228,7 +398,7 @@ def seam_and_corner_pairs(rng, gamma, n, with_addr=False):
         elif kind == 'corner' and K > 1:
             k = rng.randrange(1, K)
             A, B = (k - 1, i, 2**i - 1), (k, j, 0)
-        elif kind == 'corner':
+        elif kind == 'corner' and closed:
             k4 = rng.randrange(1, 4)   # circle: an interior multiple of a quarter
             A, B = (0, i, k4 * 2**(i - 2) - 1), (0, j, k4 * 2**(j - 2))
         elif kind == 'gap' and (K > 1 or closed):
